@@ -92,6 +92,8 @@ type Spec struct {
 	// OmitHTTPVals: the record comes from an exporter whose template lacks httpVals (an element the
 	// aggregation process is configured to aggregate): ingesting it into an existing flow fails part-way
 	OmitHTTPVals bool
+	// OmitStart: no flowStartSeconds either (a first record like this cannot be set up for aggregation)
+	OmitStart bool
 }
 
 func ie(name string, ent uint32) *entities.InfoElement {
@@ -120,7 +122,9 @@ func Record(s Spec) entities.Record {
 	add(entities.NewUnsigned16InfoElement(ie("sourceTransportPort", 0), k.SPort))
 	add(entities.NewUnsigned16InfoElement(ie("destinationTransportPort", 0), k.DPort))
 	add(entities.NewUnsigned8InfoElement(ie("protocolIdentifier", 0), k.Proto))
-	add(entities.NewDateTimeSecondsInfoElement(ie("flowStartSeconds", 0), s.Start))
+	if !s.OmitStart {
+		add(entities.NewDateTimeSecondsInfoElement(ie("flowStartSeconds", 0), s.Start))
+	}
 	add(entities.NewDateTimeSecondsInfoElement(ie("flowEndSeconds", 0), s.End))
 	add(entities.NewUnsigned8InfoElement(ie("flowEndReason", 0), s.EndReason))
 	add(entities.NewUnsigned64InfoElement(ie("packetTotalCount", 0), s.PktTot))
